@@ -555,12 +555,25 @@ fn gen_data(r: &mut Xo, n: usize, p: usize, f32m: bool) -> (Vec<Vec<f64>>, &'sta
     (data, name)
 }
 
-fn ensure_distinct(data: &mut Vec<Vec<f64>>, k: &mut usize) {
-    let mut dn = distinct_rows(data);
+/// number of distinct rows as the element type sees them
+fn distinct_rows_t(data: &[Vec<f64>], f32m: bool) -> usize {
+    if f32m {
+        let d: Vec<Vec<f64>> = data.iter().map(|r| r.iter().map(|v| *v as f32 as f64).collect()).collect();
+        distinct_rows(&d)
+    } else {
+        distinct_rows(data)
+    }
+}
+
+fn ensure_distinct(data: &mut Vec<Vec<f64>>, k: &mut usize, f32m: bool) {
+    let mut dn = distinct_rows_t(data, f32m);
     if dn < 2 {
+        // make the last row differ in the element type (a +1.0 step is below the resolution of large f32 values)
         let last = data.len() - 1;
-        data[last][0] += 1.0;
-        dn = distinct_rows(data);
+        let v = data[last][0];
+        let step = (v.abs() * if f32m { 1e-3 } else { 1e-9 }).max(1.0);
+        data[last][0] = if f32m { (v + step) as f32 as f64 } else { v + step };
+        dn = distinct_rows_t(data, f32m);
     }
     if *k > dn {
         *k = dn.max(2);
@@ -725,7 +738,7 @@ fn gen_case(batch: &str, _index: u64, seed: u64) -> Case {
         }
         return Case { mode: "direct".into(), data, k, max_iter: 1, f32m, centroids: cents, queries: vec![], tape: TapeSpec::prng(tape_seed), kind: format!("{}/{}", dname, cname) };
     }
-    ensure_distinct(&mut data, &mut k);
+    ensure_distinct(&mut data, &mut k, f32m);
     let max_iter = *pr.pick(&[1usize, 1, 2, 2, 3, 5, 10, 30, 100, 100]);
     let nq = pr.usize_in(0, 6);
     let s = scale_of(&data, &[]).max(1e-3);
@@ -813,7 +826,7 @@ impl Property for C12 {
                 return false;
             }
             if c.mode == "fit" {
-                c.k >= 2 && c.max_iter >= 1 && distinct_rows(&c.data) >= c.k
+                c.k >= 2 && c.max_iter >= 1 && distinct_rows_t(&c.data, c.f32m) >= c.k
             } else {
                 !c.centroids.is_empty()
             }
